@@ -33,6 +33,10 @@ type runtimeContextManager struct {
 
 	messageHandler Callable
 
+	// True if the hard CPU / memory limit is what the parent had left when
+	// this context was pushed, rather than a tighter limit of its own.
+	cpuLimitInherited, memLimitInherited bool
+
 	trackCpu         bool
 	trackMem         bool
 	trackTime        bool
@@ -109,6 +113,8 @@ func (m *runtimeContextManager) PushContext(ctx RuntimeContextDef) {
 	parent := *m
 	m.startTime = now()
 	m.hardLimits = m.hardLimits.Remove(m.usedResources).Merge(ctx.HardLimits)
+	m.cpuLimitInherited = m.hardLimits.Cpu != ctx.HardLimits.Cpu
+	m.memLimitInherited = m.hardLimits.Memory != ctx.HardLimits.Memory
 	m.softLimits = m.hardLimits.Merge(m.softLimits).Merge(ctx.SoftLimits)
 	m.usedResources = RuntimeResources{}
 	m.requiredFlags |= ctx.RequiredFlags
@@ -177,7 +183,10 @@ func (m *runtimeContextManager) requireCPU(cpuAmount uint64) {
 	}
 	cpuUsed := m.usedResources.Cpu + cpuAmount
 	if atLimit(cpuUsed, m.hardLimits.Cpu) {
-		m.TerminateContext("CPU limit of %d exceeded", m.hardLimits.Cpu)
+		m.terminate(ContextTerminationError{
+			message:        fmt.Sprintf("CPU limit of %d exceeded", m.hardLimits.Cpu),
+			outOfParentCPU: m.cpuLimitInherited,
+		})
 	}
 	if m.trackTime && m.nextCpuThreshold <= cpuUsed {
 		m.nextCpuThreshold = cpuUsed + cpuThresholdIncrement
@@ -205,7 +214,10 @@ func (m *runtimeContextManager) requireMem(memAmount uint64) {
 	}
 	memUsed := m.usedResources.Memory + memAmount
 	if atLimit(memUsed, m.hardLimits.Memory) {
-		m.TerminateContext("memory limit of %d exceeded", m.hardLimits.Memory)
+		m.terminate(ContextTerminationError{
+			message:           fmt.Sprintf("memory limit of %d exceeded", m.hardLimits.Memory),
+			outOfParentMemory: m.memLimitInherited,
+		})
 	}
 	m.usedResources.Memory = memUsed
 }
@@ -304,13 +316,29 @@ func (m *runtimeContextManager) KillContext() {
 
 // TerminateContext forcefully terminates the context with the given message.
 func (m *runtimeContextManager) TerminateContext(format string, args ...interface{}) {
+	m.terminate(ContextTerminationError{
+		message: fmt.Sprintf(format, args...),
+	})
+}
+
+func (m *runtimeContextManager) terminate(err ContextTerminationError) {
 	if m.status != StatusLive {
 		return
 	}
 	m.status = StatusKilled
-	panic(ContextTerminationError{
-		message: fmt.Sprintf(format, args...),
-	})
+	panic(err)
+}
+
+// propagateTermination is called on the parent of a context that has just been
+// terminated with err and popped.  If the child ran out of the parent's CPU or
+// memory, the parent is terminated as well: catching the child's termination
+// (as pcall does) must not let the parent carry on.
+func (m *runtimeContextManager) propagateTermination(err ContextTerminationError) {
+	if err.outOfParentCPU || err.outOfParentMemory {
+		err.outOfParentCPU = err.outOfParentCPU && m.cpuLimitInherited
+		err.outOfParentMemory = err.outOfParentMemory && m.memLimitInherited
+		m.terminate(err)
+	}
 }
 
 // Current unix time in ms
